@@ -301,6 +301,8 @@ def range_(ctx):
     l0 = int(rng.integers(0, nax))
     h0 = int(rng.integers(l0, nax))
     style = gen.pick(rng, ["inside", "inside", "centres", "vertex"])
+    if spec.int_corners and rng.random() < 0.6:
+        style = "vertex"  # whole-number lower bounds on integer-cornered meshes
     if style == "centres":
         (a, ca, _), (b, cb, _) = (_coord_in_cell(rng, spec, ax, l0, "centre"),
                                   _coord_in_cell(rng, spec, ax, h0, "centre"))
@@ -318,7 +320,7 @@ def range_(ctx):
     # the two bounds are numbers of whatever kind the caller has at hand: a whole number is
     # written as a Python int, the other bound stays a float (sel(x=(1, 2.7)))
     a, b = float(a), float(b)
-    if a.is_integer() and abs(a) < 2**53 and rng.random() < 0.6:
+    if a.is_integer() and abs(a) < 2**53 and rng.random() < (0.9 if spec.int_corners else 0.6):
         a = int(a)
     if b.is_integer() and abs(b) < 2**53 and rng.random() < 0.6:
         b = int(b)
